@@ -251,8 +251,14 @@ func (p *proxy) ServeHTTP(w http.ResponseWriter, r *http.Request) {
 		}
 		w.Header().Add("transfer-encoding", "chunked")
 		w.WriteHeader(resp.StatusCode)
-		io.Copy(w, resp.Body)
+		_, err := io.Copy(w, resp.Body)
 		resp.Body.Close()
+		if err != nil {
+			// The client went away before the whole response was relayed. The agent may still be
+			// sending the rest of it, so the trailers are not complete (and still being written).
+			log.Printf("Failure relaying the response to %q: %v", id, err)
+			return
+		}
 		for name, vals := range resp.Trailer {
 			if isHopByHopHeader(name) {
 				continue
